@@ -89,6 +89,32 @@ CLAIMED["C15"] = dict(
     technique="TLA+ cost invariant (TLC) + allocation traces of the real parser validated by TLC",
     ref="DESIGN.md section 6 C15")
 
+CLAIMED["C16"] = dict(
+    text="The registries (RFC 8010/8011, PWG 5100.1, CUPS) are transcribed into the TLA+ module IppRegistry; the harness "
+         "dumps every public enum over its whole numeric domain (all 65536 status / operation values, all 256 tag "
+         "octets, the i32 enums) and TLC validates each line against the tables: own symbol for every RFC 8011 status, "
+         "'unknown' or an own symbol otherwise, success only in 0x0000-0x00ff, recognised values carry the registered "
+         "meaning and convert back to the same number.",
+    note="A table check: TLA+ supplies the oracle language. Symbols are compared by normalised name (two documented aliases).",
+    technique="registry tables as a TLA+ module + exhaustive enum dump validated by TLC",
+    ref="DESIGN.md section 6 C16")
+CLAIMED["C13"] = dict(
+    text="TLC enumerates all 576 URI shapes and checks Canon on records (canonical form, idempotence, no user-info / "
+         "query); the harness fills each shape with 32-256 concrete targets, runs canonicalize_uri and 11 request "
+         "constructors, splits every result with an independent URI splitter and searches the encoded requests for the "
+         "secrets; TLC validates each event against Trace_Uri.",
+    note="Strings are opaque to TLC (component equality only); targets http::Uri rejects are outside the domain.",
+    technique="TLA+ function model over URI records (TLC) + spec-enumerated shapes replayed + TLC trace validation",
+    ref="DESIGN.md section 6 C13")
+CLAIMED["C14"] = dict(
+    text="As C13 for Transport(target): the URL the clients contact is observed through the guarded hook "
+         "verif_transport_url and validated by TLC against the rule ipp->http, ipps->https, default port 631, all "
+         "other components unchanged. The pinned ipps default of 443 is a listed known finding admitted only for its "
+         "input class.",
+    note="Hook ancwrd1_ipp_rs_verif exposes the private function the clients call; known finding D8 in known_findings.json.",
+    technique="TLA+ function model over URI records (TLC) + guarded hook observation + TLC trace validation",
+    ref="DESIGN.md section 6 C14")
+
 NOT_YET = "check not built yet in this round (planned, see DESIGN.md section 6)"
 
 
